@@ -177,8 +177,24 @@ def execute_valid_lemma(E):
     E.prove('execute:response-carries-the-read-code', resp.read_code == rc)
 
 
+def configure_lemma(E):
+    """"the configured objects": the identity a server answers from is what update() - the call the server front-ends and
+    ModbusControlBlock().Identity.update(...) configure it with - last said, object by object: a value replaces the earlier one, a blank
+    withdraws the object, objects not mentioned stay"""
+    ident = E.new(DEV + 'ModbusDeviceIdentification', {0: 'vendor', 1: 'code', 3: 'url', 0x81: 'private'})
+    E.method(ident, 'update', {1: '', 3: 'other-url', 4: 'name', 0x81: ''})
+    get = lambda k: E.method(ident, '__getitem__', k)
+    E.prove('configure:a-value-replaces-the-earlier-one', get(3) == 'other-url')
+    E.prove('configure:a-blank-withdraws-the-object', get(1) == '' and get(0x81) == '')
+    E.prove('configure:a-new-object-is-added', get(4) == 'name')
+    E.prove('configure:objects-not-mentioned-stay', get(0) == 'vendor')
+    E.method(ident, 'update', {0: '', 1: '', 3: '', 4: ''})         # leave the (class-level) table as it was found
+
+
 def get_units():
     us = []
+    us_cfg = Unit('%s/configure' % PROP, configure_lemma, [PROP], functions=[DEV + 'ModbusDeviceIdentification.update', DEV + 'ModbusDeviceIdentification.__init__'])
+    us.append(us_cfg)
     for rc in (1, 2, 3, 4):
         us.append(Unit('%s/get.read_code%d' % (PROP, rc), get_lemma(rc), [PROP], functions=[DEV + 'DeviceInformationFactory.get', DEV + 'ModbusDeviceIdentification.__getitem__']))
         if rc == 3:
